@@ -23,6 +23,11 @@ cd $ROOT/coq
 { echo "-Q . GV"; echo "-arg -w -arg -all"; ls Common/*.v Model/*.v Gen/*.v Proofs/*.v Props/*.v 2>/dev/null; } > _CoqProject.new
 if ! cmp -s _CoqProject.new _CoqProject || [ ! -e Makefile ]; then mv _CoqProject.new _CoqProject; coq_makefile -f _CoqProject -o Makefile > /dev/null; else rm -f _CoqProject.new; fi
 timeout 3000 make -k -j16 COQC="timeout 900 coqc" > $ROOT/build/make.log 2>&1
+# a file whose recompilation failed keeps its previous .vo (coqc fails before writing): remove such stale
+# objects so that nothing downstream is checked against an outdated proof
+for vo in $(grep -oE '\*\*\* \[[^]]*: [^] ]+\.vo\] Error' $ROOT/build/make.log | sed -E 's/.*: ([^] ]+\.vo)\] Error/\1/' | sort -u); do
+  rm -f "$vo" "${vo}s" "${vo%.vo}.vok"
+done
 for f in Common/*.v Model/*.v Gen/*.v Proofs/*.v Props/*.v; do
   [ -e "$f" ] || continue
   [ -e "${f}o" ] || echo "BUILD-FAIL $f"
